@@ -18,8 +18,13 @@ ALGOS = ["dpop", "dsa", "mgm", "maxsum", "adsa"]
 
 def gen_run(rng, i):
     algo = ALGOS[i % len(ALGOS)]
-    case = gen.gen_case(rng, min_vars=3, max_vars=6, max_dom=3, palettes=("ties", "distinct"), max_space=600,
-                        nary=False, unary=False, var_costs=False, binary_only=True, shapes=("chain", "star", "tree", "cycle", "random"))
+    if rng.random() < 0.5:
+        case = gen.gen_case(rng, min_vars=3, max_vars=6, max_dom=3, palettes=("ties", "distinct"), max_space=600,
+                            nary=False, unary=False, var_costs=False, binary_only=True, shapes=("chain", "star", "tree", "cycle", "random"))
+    else:
+        # the general case: n-ary / unary / duplicate-scope constraints, variable costs, string domains
+        case = gen.gen_case(rng, min_vars=3, max_vars=6, max_dom=3, palettes=("ties", "distinct", "float"), max_space=600,
+                            shapes=("chain", "star", "tree", "cycle", "random"))
     na = rng.randint(2, 5)
     # DPOP computations have no footprint() (NotImplementedError): replication is documented for the local-search / maxsum family
     opts = {"replication": algo != "dpop" and rng.random() < 0.5, "k": rng.randint(1, 2), "pause_resume": algo != "dpop" and rng.random() < 0.5,
